@@ -1080,9 +1080,22 @@ def job_simulate(job):
             allscripts = job["scripts_sparse"]
             flat = [c for sc in allscripts for c in sc]
             cur["s"] = Scripted(flat, True)
-            result = Simulator(N).simulate(program, [], len(allscripts))
+            result = Simulator(N).simulate(program, [g for _n, g in job.get("sim_goals", [])], len(allscripts))
+            gname1 = {str(symengine.sympify(g)): n_ for n_, g in job.get("sim_goals", [])}
             for states in result.samples:
-                runs.append({"states": [{str(k): float_frac(v) for k, v in st.items()} for st in states]})
+                sts = []
+                for st in states:
+                    o_ = {}
+                    for k, v in st.items():
+                        ks = str(k)
+                        if ks in gname1 and not ks.isidentifier():
+                            o_[gname1[ks]] = float_frac(v)
+                        else:
+                            o_[ks] = float_frac(v)
+                            if ks in gname1:
+                                o_[gname1[ks]] = float_frac(v)
+                    sts.append(o_)
+                runs.append({"states": sts})
         except Exception as ex:
             runs.append({"exc": type(ex).__name__, "msg": str(ex)[:200]})
         finally:
